@@ -16,7 +16,7 @@ class Obs:
 
     def __repr__(self):
         if self.ok:
-            return 'Obs(ok, %d bytes, %d labels)' % (len(self.out), len(self.labels))
+            return 'Obs(ok, %d bytes, %d labels)' % (len(self.out), len(self.labels or ()))
         return 'Obs(exc=%r)' % (self.exc,)
 
 
@@ -35,10 +35,18 @@ def observe(asm, src, compress=False, include_dirs=None, tap=True, preseed=None)
     """Run the real assemble() once; record result or exception, label/constant tables, blob stream."""
     o = Obs()
     o.labels, o.constants = {}, {}
+    notables = False
     if preseed:
         # a caller-supplied table that already holds entries (re-used from an earlier build, or external symbols)
         o.labels.update(preseed.get('labels', {}))
         o.constants.update(preseed.get('constants', {}))
+        if preseed.get('earlier') is not None:
+            # an earlier, unrelated build in this interpreter by a caller that passes no tables at all
+            try:
+                asm.assemble(preseed['earlier'])
+            except Exception:  # noqa
+                pass
+        notables = bool(preseed.get('notables'))
     o.blobs = None
     o.hook_reached = False
     orig = getattr(asm, 'resolve_blobs', None)
@@ -58,7 +66,11 @@ def observe(asm, src, compress=False, include_dirs=None, tap=True, preseed=None)
         kw = {}
         if include_dirs is not None:
             kw['include_dirs'] = include_dirs
-        out = asm.assemble(src, labels=o.labels, constants=o.constants, compress=compress, **kw)
+        if notables:
+            out = asm.assemble(src, compress=compress, **kw)       # this caller does not ask for the tables either
+            o.labels = o.constants = None
+        else:
+            out = asm.assemble(src, labels=o.labels, constants=o.constants, compress=compress, **kw)
         o.ok = True
         o.out = bytes(out)
         o.exc = None
